@@ -42,7 +42,8 @@ type StructDataProvider struct {
 
 func (s *StructDataProvider) Get(key string) any {
 	field := s.value.FieldByName(key)
-	if !field.IsValid() {
+	if !field.IsValid() || !field.CanInterface() {
+		// missing or unexported field: absent
 		return nil
 	}
 	return field.Interface()
